@@ -586,3 +586,140 @@ def rule_p5(P):
         if not ok:
             findings.append(F("P5", f"P5|metachar|{ch}", f"string_to_filename introduces {ch!r} as an escape metacharacter ({why}) but is_reserved_char (and its callees) never tests for it: a name containing {ch!r} is written unescaped, so the encoding is not injective and two glyph names can share one IR file", P.body_file_line(pred)))
     return findings, obl, samples, {"escape_metachars": sorted(meta), "reserved_switch_values": len(values)}
+
+
+# ---------------------------------------------------------------------------------------------- L1 cursor ownership (C13)
+def rule_l1(P):
+    """Losslessness of the FEA parse tree (token texts concatenated == input) needs: exactly one function advances the
+    sink's source cursor, it slices the text by the same length it advances by, the lexer is only pulled by Parser::advance,
+    and every function that advances the parser hands the consumed lexeme(s) to AstSink::token."""
+    findings, obl, samples = [], [], []
+    SINK = "fea_rs::token_tree::AstSink"
+    tok = [k for k, b in P.bodies.items() if b.get("impl_self", "").startswith(SINK) and k.endswith("::token")]
+    if len(tok) != 1:
+        raise E5Error(f"AstSink::token not found: {tok}")
+    tok = tok[0]
+    # (i) writers of AstSink.text_pos
+    writers = set()
+    n_fields = 0
+    for k, b in P.bodies.items():
+        if not k.startswith("fea_rs::"):
+            continue
+        for blk in b["blocks"]:
+            if blk["cl"]:
+                continue
+            for st in blk["s"]:
+                d = st["d"]
+                if any(e == f"f:text_pos:{SINK}" for e in d[1:]):
+                    n_fields += 1
+                    writers.add(k)
+                rv = st["rv"]
+                if rv.get("r") == "ref" and rv.get("bk") == "mut" and any(e == f"f:text_pos:{SINK}" for e in rv["p"][1:]):
+                    writers.add(k)
+    if n_fields == 0:
+        raise E5Error("no write of AstSink.text_pos found")
+    for w in sorted(writers):
+        ok = w == tok
+        obl.append({"rule": "L1", "inst": f"AstSink.text_pos is written in {w}", "ok": ok})
+        if not ok:
+            findings.append(F("L1", f"L1|cursor-writer|{w}", f"{w} moves the source cursor AstSink.text_pos; only AstSink::token may (it slices text[pos..pos+len] and adds the same len): a second writer drops or duplicates source text in the parse tree", P.body_file_line(w)))
+    # (ii) in token(): the slice end and the increment use the same length parameter
+    b = P.bodies[tok]
+    len_param = None
+    for i in range(1, b["argc"] + 1):
+        if b["locals"][i] == "usize":
+            len_param = i
+    adds = []
+    for blk in b["blocks"]:
+        for st in blk["s"]:
+            rv = st["rv"]
+            if rv.get("r") == "bin" and rv.get("op") in ("Add", "AddWithOverflow", "AddUnchecked"):
+                ls = [operand_local(o) for o in rv["o"] if operand_local(o) is not None]
+                sl, _ = backward_slice(b, ls, None, through_calls=False)
+                if len_param in sl:
+                    adds.append(st)
+    ok = len_param is not None and len(adds) >= 2
+    obl.append({"rule": "L1", "inst": "AstSink::token slices by and advances by its own len parameter", "ok": ok})
+    if not ok:
+        findings.append(F("L1", "L1|token-shape", "AstSink::token no longer adds its len parameter both to the slice end and to the cursor", P.body_file_line(tok)))
+    # (iii) the lexer is pulled only by Parser::advance
+    rev = P.rev_edges()
+    nt = [k for k in P.bodies if k.startswith("fea_rs::parse::lexer::") and k.endswith("::next_token")]
+    adv = [k for k, bb in P.bodies.items() if k.startswith("fea_rs::parse::parser::") and k.endswith("::advance")]
+    if len(nt) != 1 or len(adv) != 1:
+        raise E5Error(f"Lexer::next_token / Parser::advance not found: {nt} {adv}")
+    nt, adv = nt[0], adv[0]
+    callers = {c for c in rev.get(nt, ()) if c in P.bodies and c.startswith("fea_rs::") and "::util::" not in c and "[bin]" not in c}
+    for c in sorted(callers):
+        root = P.bodies[c].get("root") or c
+        ok = root in (adv,) or root.endswith("::lexer::tokenize") or root.startswith("fea_rs::parse::lexer::")
+        obl.append({"rule": "L1", "inst": f"Lexer::next_token called from {c}", "ok": ok})
+        if not ok:
+            findings.append(F("L1", f"L1|lexer-caller|{c}", f"{c} pulls tokens from the lexer outside Parser::advance: those lexemes never reach the tree", P.body_file_line(c)))
+    # (iv) every caller of advance hands tokens to the sink
+    acallers = {c for c in rev.get(adv, ()) if c in P.bodies}
+    for c in sorted(acallers):
+        name = c.rsplit("::", 1)[1]
+        if name == "new":
+            obl.append({"rule": "L1", "inst": f"{c} primes the look-ahead buffer (no token consumed)", "ok": True})
+            continue
+        sink_calls = [s for s in P.iter_sites(c) if s["kind"] == "call" and tok in s["targets"]]
+        ok = bool(sink_calls)
+        if ok and name == "do_bump":
+            cfg = CFG(P.bodies[c])
+            ok = cfg.must_pass({s["bi"] for s in sink_calls})
+        obl.append({"rule": "L1", "inst": f"{c} advances the parser and passes the consumed text to AstSink::token", "ok": ok})
+        if not ok:
+            findings.append(F("L1", f"L1|advance-without-token|{c}", f"{c} advances the parser without handing the consumed lexeme to AstSink::token on every path: its text is missing from the tree", P.body_file_line(c)))
+    samples.append({"rule": "L1", "cursor_writers": sorted(writers), "advance_callers": sorted(acallers), "lexer_callers": sorted(callers)})
+    return findings, obl, samples, {"cursor_writers": len(writers), "advance_callers": len(acallers)}
+
+
+# ---------------------------------------------------------------------------------------------- T2 count-field provenance (C05)
+import re as _re
+
+COUNT_FIELD = _re.compile(r"^(number_of_|num_)|_count$")
+
+
+def rule_t2(P, E, M):
+    """Glyph-indexed tables agree on counts only if every count field of an emitted table is computed by the job that
+    writes the corresponding array.  Structural necessary condition: no count-like field (number_of_*, num_*, *_count) of a
+    write-fonts table aggregate built in a backend job may flow from the FEA override tables (Be.extra_fea_tables) or be
+    left to a `..base` struct-update whose base comes from there."""
+    findings, obl, samples = [], [], []
+    fns = set()
+    for j in M.jobs.values():
+        if j["crate"] == "fontbe":
+            fns |= {f for f in j["reach"] if f in P.bodies and f.startswith("fontbe::")}
+    n = 0
+    for fn in sorted(fns):
+        body = P.bodies[fn]
+        defs = None
+        for blk in body["blocks"]:
+            if blk["cl"]:
+                continue
+            for st in blk["s"]:
+                rv = st["rv"]
+                if rv.get("r") != "agg" or rv.get("ak") != "adt" or not rv["adt"].startswith("write_fonts::tables::"):
+                    continue
+                names = rv.get("fn") or []
+                for name, op in zip(names, rv["o"]):
+                    if not COUNT_FIELD.search(name):
+                        continue
+                    n += 1
+                    l = operand_local(op)
+                    bad = set()
+                    if l is not None:
+                        defs = defs or def_sites(body)
+                        _, recs = backward_slice(body, [l], defs)
+                        bad = {s for s in E.slots_read_in_slice(fn, body, recs) if s == ("Be", "extra_fea_tables")}
+                    ok = not bad
+                    inst = f"{fn}: {rv['adt'].split('::')[-1]}.{name} is computed by the job (not taken from the FEA override tables)"
+                    obl.append({"rule": "T2", "inst": inst, "ok": ok})
+                    if ok and len(samples) < 3:
+                        samples.append({"rule": "T2", "site": P.site_loc(fn, st["l"]), "field": f"{rv['adt'].split('::')[-1]}.{name}", "from_fea_tables": False})
+                    if not ok:
+                        findings.append(F("T2", f"T2|{fn}|{rv['adt'].split('::')[-1]}.{name}",
+                                          f"{fn} fills the count field {rv['adt'].split('::')[-1]}.{name} from the FEA override tables (Be.extra_fea_tables) instead of from the data it writes: the header count and the array length can disagree (fea-rs leaves such fields at their default)",
+                                          P.site_loc(fn, st["l"])))
+    return findings, obl, samples, {"count_fields_checked": n}
